@@ -19,15 +19,17 @@ EXPLANATION = ('Coq: for every skeleton of the exhaustive enumeration up to the 
                'source nesting (induction over the program and over the nesting depth); see coq/Props/PropC03.v.')
 TRUSTED_BASE = P2.TRUSTED_BASE
 ASSUMPTIONS = P2.ASSUMPTIONS + ['a while loop that is literally in counting-loop form (preceded by an assignment to its variable, condition <= or >=, last statement adds 1 or -1) is the same bytecode as repeat with and is printed as such (compilation is not injective there)']
-LEVEL_TEXT = ('Proof: (1) unbounded, by induction: for every exit-free nest of if / if-else / repeat while / repeat with (up, down) over assignments and statement calls (any depth, any '
-              'number of statements, any expression as condition, only bounds the jump offsets of the format) the stack machine followed by '
-              'condition_detect and loop_detect rebuilds exactly the source nesting (C03_exit_free_nests_rebuilt_unbounded, C03_counting_loops_rebuilt_unbounded). '
-              '(2) bounded and exhaustive for the full construct set including exit repeat at every legal position: a Coq theorem, by computation in the kernel '
+LEVEL_TEXT = ('Proof: (1) unbounded, by induction: for every nest of if / if-else / repeat while / repeat with (up, down) over assignments and statement calls, '
+              'with exit repeat at any place of a loop body (directly, in a then or else part, followed by further statements; out of plain and counting loops) - any depth, any '
+              'number of statements, any expression as condition, only bounds the jump offsets of the format - the stack machine followed by '
+              'condition_detect, break conversion and loop_detect rebuilds exactly the source nesting (C03_exit_free_nests_rebuilt_unbounded - the name is historical, it covers exits -, '
+              'C03_counting_loops_rebuilt_unbounded, C03_passes_rebuild_any_nest). '
+              '(2) bounded and exhaustive for the full construct set including list loops: a Coq theorem, by computation in the kernel '
               'over the faithful model of JumpOpcode / condition_detect / break_detect / loop_detect, that EVERY skeleton with at most 2 compound constructs (bodies of one or two items) '
               'and every skeleton with at most 4 constructs (one-item bodies) decompiles to exactly the source nesting; the bound is in the theorem statement. '
               'The correspondence check ties the model to /repo on the same enumeration (and one size further in the thorough tier) plus random deep shapes.')
-LEVEL_NOTE = 'Until the repair ca070ba of /repo the full statement was refuted (four exit-repeat patterns, findings P1-P4, now fixed). Unbounded: the exit-free fragment; exit repeat and list loops are covered by the bounded theorem, the correspondence and the parser oracle.'
-TECHNIQUE = 'Coq proof by induction (exit-free if / if-else / repeat while / repeat with nests, unbounded) and by kernel computation (vm_compute) over an exhaustive bounded enumeration (full construct set, exact iff-characterisation) + model/implementation correspondence'
+LEVEL_NOTE = 'Until the repair ca070ba of /repo the full statement was refuted (four exit-repeat patterns, findings P1-P4, now fixed). Unbounded: if / if-else / repeat while / repeat with counting loops / exit repeat; repeat with ... in <list> is covered by the bounded theorem, the correspondence and the parser oracle.'
+TECHNIQUE = 'Coq proof by induction (if / if-else / repeat while / repeat with nests with exit repeat, unbounded) and by kernel computation (vm_compute) over an exhaustive bounded enumeration (full construct set, exact iff-characterisation) + model/implementation correspondence'
 
 def gen_cases(rng, tier):
     seen = set()
